@@ -338,8 +338,12 @@ class MoleculeResolver:
             if not bonding[0].startswith('!'):
                 continue
             # let's squash two nodes
-            node_to_keep = squashed.get(edge[0], edge[0])
-            node_to_remove = squashed.get(edge[1], edge[1])
+            node_to_keep, node_to_remove = edge
+            # nodes can be squashed more than once
+            while node_to_keep in squashed:
+                node_to_keep = squashed[node_to_keep]
+            while node_to_remove in squashed:
+                node_to_remove = squashed[node_to_remove]
             squashed[node_to_remove] = node_to_keep
             self.molecule = nx.contracted_nodes(self.molecule,
                                                 node_to_keep,
